@@ -1,5 +1,6 @@
 import Hyeong.Lemmas.NumProof
 import Hyeong.Lemmas.NumLRefine
+import Hyeong.Lemmas.NumOrder
 /-!
 # C06 — rationals compute exactly, stay canonical, NaN is absorbing
 
@@ -37,6 +38,15 @@ theorem flip_zero_nan (a : NumI) (h : a.up = 0) : isNan (flip a) = true :=
 theorem floor_exact (a : NumI) (ha : Canon a) (h0 : 0 ≤ a.up) :
     floor a = (Rat.divInt a.up a.down).floor :=
   HyN.floor_exact a ha h0
+
+/-- `Num::floor` on every canonical value: the floor for a non-negative value; for a negative one the truncation
+toward zero `-⌊-q⌋` (`&self.up / &self.down` is `BigNum`'s truncating division). The interpreter applies `floor`
+only to non-negative values (`push_stack_wrap` negates first); this says what the function is everywhere. -/
+theorem floor_trunc (a : NumI) (ha : Canon a) :
+    floor a = if 0 ≤ a.up then (Rat.divInt a.up a.down).floor else -((-(Rat.divInt a.up a.down)).floor) :=
+  HyN.floor_trunc a ha
+
+example : floor ⟨-7, 2⟩ = -3 ∧ floor ⟨7, 2⟩ = 3 ∧ floor ⟨-4, 1⟩ = -4 := by decide
 
 /-- the sign test: true exactly for non-negative rationals (never for NaN) -/
 theorem isPos_iff (a : NumI) (ha : Valid a) : isPos a = true ↔ ∃ q, toRat a = some q ∧ 0 ≤ q :=
